@@ -110,4 +110,37 @@ def run(job):
                            r.unit, mode)
             job.case("div/derived-quantized", (repr(x), repr(y), mode),
                      on_grid(r) and O.F(r.amount) == e2, repr(r), repr(e2))
+    # money of different currencies with a registered converter: the sum /
+    # difference is the exact a +- b * rate rounded once (not the rounded
+    # converted amount added and rounded again)
+    from quantity.money import MoneyConverter
+    USD = Money.register_currency("USD")
+    conv = MoneyConverter(EUR)
+    conv.update(None, [(USD, Decimal("1.25"), 1), (JPY, Decimal("131.5"), 1),
+                       (BHD, Decimal("0.41"), 1)])
+    # only pairs whose rate and inverse rate are exact at six digits
+    GBP = Money.register_currency("GBP")
+    conv.update(None, [(GBP, Decimal("0.8"), 1)])
+    rate = {(EUR, USD): Fraction(5, 4), (USD, EUR): Fraction(4, 5),
+            (EUR, GBP): Fraction(4, 5), (GBP, EUR): Fraction(5, 4)}
+    cents = [Decimal(k) / 100 for k in (1, 2, 3, 5, 6, 7, 100, 1000, -3, 33)]
+    with conv:
+        for mode in O.MODES:
+            W.set_mode(mode)
+            for (cu, co), rt in rate.items():
+                if not job.mine():
+                    continue
+                for a in cents:
+                    for b in cents:
+                        x, y = Money(a, cu), Money(b, co)
+                        for name, op, sgn in (("add", operator.add, 1),
+                                              ("sub", operator.sub, -1)):
+                            r = op(x, y)
+                            # y converted to cu: b / rate(cu -> co)
+                            e2 = O.q_round(O.F(x.amount) + sgn * O.F(y.amount) / rt,
+                                           cu, mode)
+                            job.case(f"money-converter/{name}",
+                                     (repr(x), repr(y), mode),
+                                     r.unit is cu and O.F(r.amount) == e2,
+                                     repr(r), repr(e2))
     W.set_mode("ROUND_HALF_EVEN")
